@@ -167,6 +167,7 @@ M_PRELUDE = [
     "class N2(NamedTuple):\n    p: Optional[int] = None\n    q: Any = 7",
     "N3 = collections.namedtuple('N3', [])",
     "N4 = collections.namedtuple('N4', ['u', 'v'], defaults=[1])",
+    "class N5(NamedTuple):\n    s: 'Optional[int]' = None\n    t: 'int' = 3\n    w: 'List[N0]' = None",
     "WInt = NewType('WInt', int)",
     "WLst = NewType('WLst', List[int])",
     "WAny = NewType('WAny', Any)",
@@ -181,13 +182,15 @@ M_NAMED = {
     "N2": ('["p"; "q"]', '[TUnion [TInt; TNone]; TAny]', '[Some JNull; Some (JInt 7)]'),
     "N3": ('[]', '[]', '[]'),
     "N4": ('["u"; "v"]', '[TAny; TAny]', '[None; Some (JInt 1)]'),
+    "N5": ('["s"; "t"; "w"]', '[TUnion [TInt; TNone]; TInt; TList (TNamed {asd} [] [] [])]', '[Some JNull; Some (JInt 3); Some JNull]'),
 }
 
 
 def m_named(r, asd) -> MT:
-    n = r.choice(["N0", "N0", "N1", "N2", "N3", "N4"])
+    n = r.choice(["N0", "N0", "N1", "N2", "N3", "N4", "N5", "N5"])
     names, ts, ds = M_NAMED[n]
-    return MT(n, f"TNamed {'true' if asd else 'false'} {names} {ts} {ds}")
+    b = "true" if asd else "false"
+    return MT(n, f"TNamed {b} {names} {ts.replace('{asd}', b)} {ds}")
 
 
 def m_type(r, depth, avail, allow_any=True, asd=False) -> MT:
@@ -252,6 +255,7 @@ def m_family(r):
              "from mashumaro.config import BaseConfig"] + M_PRELUDE
     coq_classes = []
     refs = {}
+    tainted = set()
     for i, nm in enumerate(names):
         avail = names[:i]
         nf = r.randrange(0, 5)
@@ -268,6 +272,19 @@ def m_family(r):
                               MT(f'List["{target}"]', f'TList (TClass "{target}")', None, False, (target,))])
             else:
                 t = m_type(r, r.choice([0, 1, 1, 2]), avail, asd=ntd)
+                # a NamedTuple with string annotations under a rendered default is a known finding: such a field gets no default
+                # (also transitively: a class that contains one cannot sit under a rendered default either)
+                def bad(tt):
+                    return "N5" in tt.py or any(c in tainted for c in tt.classes)
+                for _ in range(20):
+                    if not bad(t) or not seen_default:
+                        break
+                    t = m_type(r, r.choice([0, 1, 1, 2]), avail, asd=ntd)
+                if bad(t) and seen_default:
+                    t = m_scalar(r)
+                if bad(t):
+                    tainted.add(nm)
+            no_default = "N5" in t.py or any(c in tainted for c in t.classes)
             refs[nm].update(t.classes)
             if r.random() < 0.15:
                 t = MT(f"Final[{t.py}]", f"TWrap ({t.coq})", t.default, False, t.classes)
@@ -281,7 +298,7 @@ def m_family(r):
             pyd = None
             jd = None
             has_default = False
-            if kind < 0.35 or seen_default:
+            if (kind < 0.35 and not no_default) or seen_default:
                 has_default = True
                 x = r.random()
                 if t.default and x < 0.6:
